@@ -56,9 +56,17 @@ extern "C" void harness() {
 #elif defined(H19C)
 extern "C" void harness() {
   Circuit c = makeCircuit();
-  int mode = __verif_choice(3);
+  int mode = __verif_choice(4);
   bool threw = false;
-  if (mode == 0) {
+  if (mode == 3) {
+    // arbitrary net limits for two nets over 2 or 3 pins: whatever is accepted is a well-formed netlist
+    int l0 = __verif_nondet_int(-2, 5), l1 = __verif_nondet_int(-2, 5), l2 = __verif_nondet_int(-2, 5);
+    int n = 2 + __verif_choice(2);
+    std::vector<int> cells = {0, 1}, xo = {0, 0}, yo = {0, 0};
+    if (n == 3) { cells.push_back(0); xo.push_back(1); yo.push_back(2); }
+    try { c.setNets({l0, l1, l2}, cells, xo, yo); } catch (const std::runtime_error&) { threw = true; }
+    if (!threw) VASSERT(l0 == 0 && l0 <= l1 && l1 <= l2 && l2 == n, "setNets accepts only net limits that start at 0, do not decrease and end at the number of pins");
+  } else if (mode == 0) {
     int k = __verif_nondet_int(-2147483647 - 1, 2147483647);
     __verif_assume(k < 0 || k >= 2);
     try { c.addNet({0, k}, {0, 0}, {0, 0}); } catch (const std::runtime_error&) { threw = true; }
